@@ -237,6 +237,9 @@ func (g *WeightedUndirectedGraph) RemoveLine(fid, tid, id int64) {
 	if yid < xid {
 		xid, yid = yid, xid
 	}
+	if g.lineIDs[xid][yid] == nil {
+		return
+	}
 	g.lineIDs[xid][yid].Release(id)
 }
 
